@@ -527,7 +527,7 @@ def make_segmented_aperture(segment_shape, segment_positions, segment_transmissi
 
     if return_segments:
         def seg(grid, p, t):
-            return segment_shape(grid.shifted(-p)) * t
+            return Field(segment_shape(grid.shifted(-p)) * t, grid)
 
         segments = []
         for p, t in zip(segment_positions.points, segment_transmissions):
